@@ -176,7 +176,7 @@ type World struct {
 	tmfx  *tmFixture
 	evmfx *evmFixture
 	// installed heights per name (the height of the last successful create / upgrade / toggle)
-	installed map[string]JH
+	installed map[string][]JH
 	tssProof  map[string]string // the TSS address of the last successful TSS proposal / update per name
 }
 
@@ -194,7 +194,7 @@ var (
 )
 
 func NewWorld(names []string) *World {
-	w := &World{names: names, installed: map[string]JH{}, tssProof: map[string]string{}}
+	w := &World{names: names, installed: map[string][]JH{}, tssProof: map[string]string{}}
 	t := &testing.T{}
 	w.coord = xibctesting.NewCoordinator(t, 1)
 	w.ch = w.coord.GetChain(xibctesting.GetChainID(0))
@@ -567,8 +567,26 @@ func (w *World) probes() []JProbe {
 			pr.Status = statusCode(st)
 		}
 		hs := []JH{jh(cs.GetLatestHeight())}
-		if ih, ok := w.installed[n]; ok && ih != hs[0] {
-			hs = append(hs, ih)
+		for _, ih := range w.installed[n] {
+			dup := false
+			for _, y := range hs {
+				dup = dup || ih == y
+			}
+			if !dup {
+				hs = append(hs, ih)
+			}
+		}
+		if cs.ClientType() != exported.TSS {
+			// one block below and one above the latest height: usually no consensus state / above the head
+			for _, x := range []JH{{hs[0][0], hs[0][1] - 1}, {hs[0][0], hs[0][1] + 1}} {
+				dup := hs[0][1] == 0 || x[1] == 0
+				for _, y := range hs {
+					dup = dup || x == y
+				}
+				if !dup {
+					hs = append(hs, x)
+				}
+			}
 		}
 		for _, h := range hs {
 			pr.Gates = append(pr.Gates, JGate{H: h, Cls: w.gateClass(n, cs, h)})
